@@ -10,7 +10,7 @@
    All statements are for every capacity n, every schedule tr and every state reached, without bound. *)
 From Coq Require Import List Arith.
 From Thunder Require Import Limiter.Model Limiter.Proofs Limiter.ModelMulti Limiter.ProofsMulti.
-From Thunder Require Import Limiter.ModelBatch Limiter.ProofsBatch.
+From Thunder Require Import Limiter.ModelBatch Limiter.ProofsBatch Limiter.ModelChain Limiter.ProofsChain.
 Import ListNotations.
 
 (* No token is lost or duplicated: the channel holds exactly one token per holder whose status is
@@ -149,6 +149,73 @@ Theorem running_le_limit_original_refuted :
                  n < running s /\ n < believes_running s /\ chan s <> owed s.
 Proof. exact original_refuted_lemma. Qed.
 Print Assumptions running_le_limit_original_refuted.
+
+(* ---- the context chain: which limiter an Acquire uses, which holder a TemporarilyRelease acts on (Limiter/ModelChain.v) ----
+
+   A context is the list of its bindings, innermost first: FLim l (With) and FHold l h (a successful Acquire on
+   limiter l).  Client labels name a context: KWith c n, KAcquire c cancelled, KBlock c; KOp l op is any other
+   operation on limiter l.  The model resolves the context the way ctx.Value does: innermost binding of the key. *)
+
+(* Every schedule of the chain is a schedule of the product of single-limiter systems over the limiters created so
+   far (a limiter created later is one that was there from the start, untouched) ... *)
+Theorem context_chain_refines_product : forall fx n tr ks, krun fx (kinit n) tr = Some ks ->
+  exists caps mtr, mrun fx (minit caps) mtr = Some (km ks) /\ length caps = length (km ks) /\ nth_error caps 0 = Some n.
+Proof. exact chain_refines_lemma. Qed.
+Print Assumptions context_chain_refines_product.
+
+(* ... hence, per limiter of the chain: token accounting, the three bounds, quiescence, release at most once, at most
+   one TemporarilyRelease with the token given up - whatever happens on the other limiters of the chain. *)
+Theorem every_limiter_of_a_context_chain_is_safe : forall n tr ks l s,
+  krun true (kinit n) tr = Some ks -> nth_error (km ks) l = Some s ->
+  chan s = owed s /\ chan s <= cap s /\ believes_running s <= cap s /\ count is_acq (holders s) <= cap s /\ running s <= cap s /\
+  (quiescent s = true -> chan s = count is_acq (holders s)) /\
+  (forall h, count (rel_took h) (threads s) <= 1) /\
+  (forall h, count (blk_owner h) (threads s) <= 1) /\
+  (l = 0 -> cap s = n).
+Proof. exact chain_safety_lemma. Qed.
+Print Assumptions every_limiter_of_a_context_chain_is_safe.
+
+(* An inner With shadows the outer one: Acquire on a context enters the select of the context's INNERMOST limiter and
+   leaves every other limiter of the chain exactly as it is. *)
+Theorem acquire_uses_the_innermost_limiter : forall fx ks c b ks' cx l,
+  kstep fx ks (KAcquire c b) = Some ks' -> nth_error (kctxs ks) c = Some cx -> limiter_of cx = Some l ->
+  (forall j, j <> l -> nth_error (km ks') j = nth_error (km ks) j) /\
+  exists s s', nth_error (km ks) l = Some s /\ nth_error (km ks') l = Some s' /\
+               threads s' = threads s ++ [A0 true b] /\ chan s' = chan s /\ holders s' = holders s.
+Proof. exact acquire_resolution_lemma. Qed.
+Print Assumptions acquire_uses_the_innermost_limiter.
+
+(* TemporarilyRelease acts on the innermost HOLDER of its context, of whichever limiter that holder is (an outer one
+   when a With came after the Acquire), and on nothing else. *)
+Theorem temporary_release_uses_the_innermost_holder : forall fx ks c ks' cx l h,
+  kstep fx ks (KBlock c) = Some ks' -> nth_error (kctxs ks) c = Some cx -> holder_of cx = Some (l, h) ->
+  (forall j, j <> l -> nth_error (km ks') j = nth_error (km ks) j) /\
+  exists s s', nth_error (km ks) l = Some s /\ nth_error (km ks') l = Some s' /\
+               threads s' = threads s ++ [B0 h] /\ chan s' = chan s /\ holders s' = holders s.
+Proof. exact block_resolution_lemma. Qed.
+Print Assumptions temporary_release_uses_the_innermost_holder.
+
+(* The context With returns resolves to the new limiter and still to the old innermost holder; the context a
+   successful Acquire returns resolves to the same limiter as before and to the new holder. *)
+Theorem contexts_returned_by_with_and_acquire : forall fx ks,
+  (forall c n cx ks', kstep fx ks (KWith c n) = Some ks' -> nth_error (kctxs ks) c = Some cx ->
+     exists cx', nth_error (kctxs ks') (length (kctxs ks)) = Some cx' /\
+                 limiter_of cx' = Some (length (km ks)) /\ holder_of cx' = holder_of cx /\
+                 nth_error (km ks') (length (km ks)) = Some (init n)) /\
+  (forall l t c cx ks', kstep fx ks (KOp l (LAcqSend t)) = Some ks' -> acq_ctx l t (kacq ks) = Some c ->
+     nth_error (kctxs ks) c = Some cx ->
+     exists cx', nth_error (kctxs ks') (length (kctxs ks)) = Some cx' /\
+                 limiter_of cx' = limiter_of cx /\ holder_of cx' = Some (l, nholders (km ks) l)).
+Proof. exact new_contexts_lemma. Qed.
+Print Assumptions contexts_returned_by_with_and_acquire.
+
+(* Acquire and TemporarilyRelease can be called on every context that exists: the bindings of a context always refer
+   to limiters and holders that exist. *)
+Theorem calls_enabled_on_every_context : forall fx n tr ks c cx,
+  krun fx (kinit n) tr = Some ks -> nth_error (kctxs ks) c = Some cx ->
+  (forall b, exists ks', kstep fx ks (KAcquire c b) = Some ks') /\ (exists ks', kstep fx ks (KBlock c) = Some ks').
+Proof. exact chain_calls_enabled_lemma. Qed.
+Print Assumptions calls_enabled_on_every_context.
 
 (* ---- batch.Func.Invoke under a limiter: the composition of this system with C05's (Limiter/ModelBatch.v) ----
 
@@ -343,4 +410,25 @@ Proof. vm_compute. reflexivity. Qed.
 Example ex_limit_zero_is_stuck :
   option_map (fun cs => (cterminal cs, find_step cs)) (crun true (cinit 0 []) [CL (LNewAcquire true false)])
   = Some (false, None).
+Proof. vm_compute. reflexivity. Qed.
+
+(* context chain: base limit 1.  G acquires from the base limiter (context 2 = [holder 0 of limiter 0; limiter 0]),
+   calls With(ctx, 2) (context 3: limiter 1 shadows limiter 0, holder 0 of limiter 0 still innermost holder),
+   acquires twice from the inner limiter (contexts 4 and 5), then calls TemporarilyRelease on context 3: the OUTER
+   token is given up, the inner limiter is untouched; on context 4 the inner holder is the one that blocks. *)
+Example ex_context_chain :
+  option_map (fun ks => (map (fun s => (cap s, chan s, holders s)) (km ks), kctxs ks))
+    (krun true (kinit 1)
+       [ KAcquire 0 false; KOp 0 (LAcqSend 0); KWith 2 2;
+         KAcquire 3 false; KOp 1 (LAcqSend 0); KAcquire 3 false; KOp 1 (LAcqSend 1);
+         KBlock 3; KOp 0 (LBlkCas 1); KOp 0 (LBlkRecv 1);
+         KBlock 4; KOp 1 (LBlkCas 2); KOp 1 (LBlkRecv 2) ])
+  = Some ([(1, 0, [Blk]); (2, 1, [Blk; Acq])],
+          [[FLim 0]; []; [FHold 0 0; FLim 0]; [FLim 1; FHold 0 0; FLim 0];
+           [FHold 1 0; FLim 1; FHold 0 0; FLim 0]; [FHold 1 1; FLim 1; FHold 0 0; FLim 0]]).
+Proof. vm_compute. reflexivity. Qed.
+
+(* an operation of that Acquire on the OUTER limiter is not a step: the call went to the inner one *)
+Example ex_context_chain_wrong_limiter :
+  krun true (kinit 1) [ KAcquire 0 false; KOp 0 (LAcqSend 0); KWith 2 2; KAcquire 3 false; KOp 0 (LAcqSend 1) ] = None.
 Proof. vm_compute. reflexivity. Qed.
